@@ -19,10 +19,13 @@ EXPLANATION = (
     "edit); R-edit-semantics (mode 'group' calls group(discarded, kept); mode 'replace' calls "
     "group(kept, discarded) then replace_group_leader(discarded, kept); a missing discarded value is "
     "mapped to str_nan and features_dropna[feature] is set so that transform keeps its label); "
-    "R-append-absent on the two appends of this method."
+    "R-append-absent on the two appends of this method; R-label-alignment (labels are paired with groups "
+    "in list order, which replace_group_leader keeps, never in the insertion order of `content`, which it "
+    "changes); R-edits-serialised (effect analysis: every attribute an edit changes is written by "
+    "to_json from self.<attr>, or rebuilt by the loader)."
 )
 NOT_DECIDED = "agreement of transform/summary/JSON after arbitrary edit sequences on data"
-FLOORS = {"R-numeric-only-call": 4, "R-labels-refreshed": 2, "R-mode-first": 1, "R-edit-semantics": 4, "R-append-absent": 2}
+FLOORS = {"R-numeric-only-call": 4, "R-labels-refreshed": 2, "R-mode-first": 1, "R-edit-semantics": 4, "R-append-absent": 2, "R-label-alignment": 2, "R-edits-serialised": 3}
 
 NUMERIC_ONLY = {"isnan", "isfinite", "isinf", "isneginf", "isposinf"}
 
@@ -146,7 +149,35 @@ def rule_update(ctx):
     ctx.ob("R-edit-semantics", construct(fi, "a missing kept value is refused before any edit"), ok, loc(fi, kept_nan[0] if kept_nan else None))
 
 
+def rule_edits_serialised(ctx):
+    """Whatever update_discretizer changes on the object is written by to_json (or rebuilt by the
+    loader's fit): otherwise a reloaded object forgets the edit."""
+    R = "R-edits-serialised"
+    repo, eng = ctx.repo, ctx.effects
+    base = repo.find_class("BaseDiscretizer")
+    fi, summ = eng.method_summary(base, "update_discretizer", None)
+    touched = sorted({e.path[1] for e in summ.events if e.path[0] == "self" and e.path[1]})
+    tj = repo.find_function(f"{F_BASE}::BaseDiscretizer.to_json")
+    keys = {}
+    for n in walk_no_nested(tj.node):
+        if isinstance(n, ast.Dict):
+            for k, v in zip(n.keys, n.values):
+                if isinstance(k, ast.Constant):
+                    keys[k.value] = unparse(v)
+    rebuilt = {"labels_per_values": "recomputed from values_orders by load_discretizer -> fit()"}
+    if not touched:
+        raise AnalysisError("update_discretizer: no effect on self found (anchor vanished)")
+    for attr in touched:
+        ok = attr in rebuilt or (attr in keys and f"self.{attr}" in keys[attr])
+        ctx.ob(R, construct(tj, f"state edited by update_discretizer (self.{attr}) survives to_json / load"), ok, loc(tj),
+               ("rebuilt: " + rebuilt[attr]) if attr in rebuilt else ("" if ok else f"self.{attr} is changed by an edit but not serialised: the reloaded object transforms differently from the edited one"))
+
+
 def check(ctx):
+    from . import c04
+
+    c04.rule_label_alignment(ctx)
+    rule_edits_serialised(ctx)
     rule_numeric_only(ctx)
     rule_update(ctx)
     check_append_absent(ctx, "R-append-absent", select=lambda fi: fi.qualname == "BaseDiscretizer.update_discretizer")
@@ -157,6 +188,8 @@ MUTANTS = [
     M("D6-reverted: numpy.isnan on Union[str, float]", [(F_BASE, "        if isna(discarded_value):", "        if isnan(discarded_value):"), (F_BASE, "from numpy import floating, integer, isfinite, nan, select", "from numpy import floating, integer, isfinite, isnan, nan, select")], "R-numeric-only-call", "update_discretizer", quick=True),
     M("serializer drops the str guard", [(F_SER, "    if not isinstance(value, str) and not isfinite(value):  # numpy.inf value", "    if not isfinite(value):  # numpy.inf value")], "R-numeric-only-call", "convert_value_to_base_type"),
     M("get_labels drops the str_nan guard", [(F_BASE, "quantiles = [val for val in quantiles if val != str_nan and isfinite(val)]", "quantiles = [val for val in quantiles if isfinite(val)]")], "R-numeric-only-call", "get_labels"),
+    M("labels paired with groups in content (dict) order", [(F_BASE, "            for group_of_values, label in zip(values, labels):\n                for value in values.get(group_of_values):\n                    label_per_value.update({value: label})\n", "            for group_values, label in zip(values.content.values(), labels):\n                label_per_value.update({value: label for value in group_values})\n")], "R-label-alignment", quick=True),
+    M("features_dropna not serialised", [(F_BASE, "            \"features_dropna\": self.features_dropna,\n", "")], "R-edits-serialised", "features_dropna"),
     M("labels not refreshed", [(F_BASE, "            self.labels_per_values = self._get_labels_per_values(self.output_dtype)\n\n\ndef transform_quantitative_feature", "\n\ndef transform_quantitative_feature")], "R-labels-refreshed", quick=True),
     M("labels refreshed for mode group only", [(F_BASE, _REFRESH, "            # updating Carver values_orders and labels_per_values\n            self.values_orders.update({feature: order})\n            if mode == 'group':\n                self.labels_per_values = self._get_labels_per_values(self.output_dtype)\n")], "R-labels-refreshed"),
     M("labels refreshed with the wrong dtype", [(F_BASE, "            self.labels_per_values = self._get_labels_per_values(self.output_dtype)\n\n\ndef transform_quantitative_feature", "            self.labels_per_values = self._get_labels_per_values('str')\n\n\ndef transform_quantitative_feature")], "R-labels-refreshed"),
